@@ -40,6 +40,9 @@ def api_str(c):
 
 class C10(core.Check):
     pid = 'C10'
+    unproved = [
+        'reconciliation after every strategy step (no stale exit order, none after close, entries cancelled iff should_cancel_entry): engine correspondence + reconciliation oracle',
+    ]
     gen_keys = ['jesse/strategies/Strategy.py:Strategy._submit_buy_orders', 'jesse/strategies/Strategy.py:Strategy._submit_sell_orders',
                 'jesse/services/broker.py:Broker._validate_qty', 'jesse/services/broker.py:Broker.buy_at_market',
                 'jesse/services/broker.py:Broker.sell_at_market', 'jesse/services/broker.py:Broker.buy_at',
@@ -159,7 +162,7 @@ class C10(core.Check):
 
     def engine_correspondence(self, res, boost):
         rng = random.Random(self.seed * 7919 + 10)
-        engcorr.compare_sessions(res, self.engine_sessions(self.budget(40, 700, boost), rng))
+        engcorr.compare_sessions(res, self.engine_sessions(self.budget(100, 700, boost), rng))
 
     def engine_oracle(self, res, boost):
         """real sessions: after every strategy step with an open position every active stop-loss / take-profit order
@@ -169,7 +172,7 @@ class C10(core.Check):
         from jesse.store import store
         rng = random.Random(self.seed * 104729 + 10)
         thr = 0.00015
-        for sess in self.engine_sessions(self.budget(60, 1200, boost), rng):
+        for sess in self.engine_sessions(self.budget(180, 1200, boost), rng):
             cands = engcorr.candles_of(sess)
             problems = []
             state = {}
